@@ -5,7 +5,7 @@
 set -u
 cd /verif
 OUT=selftest/CONSTANTS.md
-CHECKS="C02 C01 C04 C03 C05 C06 C12 C13 C14 C18 C11 C07 C15 C09 C16 C17"
+CHECKS="C02 C01 C04 C03 C05 C06 C12 C13 C14 C18 C11 C07 C15 C09 C10 C08 C16 C17"
 echo "# Mutants of src/constants.rs ($(date -u +%Y-%m-%dT%H:%MZ), /verif $(git rev-parse --short HEAD))" > $OUT
 echo >> $OUT
 echo "Each row: one constant changed; 'repo tests' = the repository's own 46 tests with the mutant; then the first quick check (in the order $CHECKS) that reports a violation." >> $OUT
